@@ -19,7 +19,7 @@ PROP = {'technique': 'property-based testing (rapid): discrete-event bottleneck 
                  'pacer progress is checked while pacing bandwidth x (now - last send) < 2^62 (C11 range)',
                  'liveness threshold theta = 0.45, fixed at half of the minimum second-half utilisation measured on the unchanged tree'],
  'tests': [{'name': 'TestVerifC12_Regress_AckOnlyGap', 'unit': BBR, 'kind': 'plain', 'known_sig': 'ackonly-gap'},
-           {'name': 'TestVerifC12_Traces', 'unit': BBR, 'quick': 500, 'shards': 4, 'thorough': 1500, 'shards_thorough': 16,
+           {'name': 'TestVerifC12_Traces', 'unit': BBR, 'quick': 500, 'shards': 4, 'thorough': 5000, 'shards_thorough': 16,
             'timeout_quick': 900, 'timeout_thorough': 5400},
-           {'name': 'TestVerifC12_Liveness', 'unit': BBR, 'quick': 60, 'shards': 4, 'thorough': 150, 'shards_thorough': 16,
+           {'name': 'TestVerifC12_Liveness', 'unit': BBR, 'quick': 60, 'shards': 4, 'thorough': 400, 'shards_thorough': 16,
             'timeout_quick': 900, 'timeout_thorough': 5400}]}
